@@ -136,7 +136,7 @@ func vc08Intern(s string) {
 }
 
 func vc08Header() string {
-	return "From V Require Import Base.Common Base.C08_Str Model.C08_Codec Model.C08_Query Model.C08_Status Base.C08_Schema Model.C08_Fmap Model.C08_Equals Model.C08_Wire Model.C08_Reuse Model.C08_Check.\nOpen Scope string_scope.\nOpen Scope N_scope.\n" +
+	return "From V Require Import Base.Common Base.C08_Str Model.C08_Codec Model.C08_Query Model.C08_Status Base.C08_Schema Model.C08_Fmap Model.C08_Equals Model.C08_Wire Model.C08_Reuse Model.C08_AddParams Model.C08_Check.\nOpen Scope string_scope.\nOpen Scope N_scope.\n" +
 		strings.Join(vc08NameDefs, "\n")
 }
 
